@@ -93,8 +93,9 @@ theorem pairStep_get {t : CostT} {l : List Arc} {a : Arc} (hI : PairInv t l)
       simp only
       rw [CostT.get_set, CostT.get_set]
       by_cases h1 : u = a.src ∧ v = a.tgt
-      · have : ¬ (u = a.tgt ∧ v = a.src) := fun h => hloop (h1.1 ▸ h.1)
-        simp [h1, this]
+      · obtain ⟨rfl, rfl⟩ := h1
+        have : ¬ (a.src = a.tgt ∧ a.tgt = a.src) := fun h => hloop h.1
+        simp [this]
       · simp only [h1, if_false]
         by_cases h2 : u = a.tgt ∧ v = a.src
         · simp [h2, hloop]
@@ -115,5 +116,74 @@ theorem pairStep_get {t : CostT} {l : List Arc} {a : Arc} (hI : PairInv t l)
         · obtain ⟨rfl, rfl⟩ := h2
           simp [hloop, hg, hc]
         · simp [h2]
+
+theorem pairStep_inv {t : CostT} {l : List Arc} {a : Arc} (hI : PairInv t l)
+    (hN : NoFeature (l ++ [a])) : PairInv (pairStep t a) (l ++ [a]) := by
+  have ha : a ∈ l ++ [a] := by simp
+  have hl : ∀ b ∈ l, b ∈ l ++ [a] := fun b hb => List.mem_append_left _ hb
+  have G := fun u v => pairStep_get hI hN u v
+  refine ⟨?_, ?_, ?_⟩
+  · intro b hb
+    rw [G]
+    rcases List.mem_append.1 hb with hb | hb
+    · by_cases h1 : b.src = a.src ∧ b.tgt = a.tgt
+      · rw [if_pos h1, (hN b (hl b hb) a ha).1 h1.1 h1.2]
+      · rw [if_neg h1]
+        by_cases h2 : (b.src = a.tgt ∧ b.tgt = a.src) ∧ a.src ≠ a.tgt
+        · exfalso
+          have e : b.src = b.tgt := (hN b (hl b hb) a ha).2 h2.1.1 h2.1.2
+          exact h2.2 (by rw [← h2.1.2, ← h2.1.1, e])
+        · rw [if_neg h2]; exact hI.fwd b hb
+    · have : b = a := by simpa using hb
+      subst this
+      simp
+  · intro b hb hne
+    rw [G]
+    rcases List.mem_append.1 hb with hb | hb
+    · by_cases h1 : b.tgt = a.src ∧ b.src = a.tgt
+      · exfalso
+        exact hne ((hN b (hl b hb) a ha).2 h1.2 h1.1)
+      · rw [if_neg h1]
+        by_cases h2 : (b.tgt = a.tgt ∧ b.src = a.src) ∧ a.src ≠ a.tgt
+        · rw [if_pos h2, (hN b (hl b hb) a ha).1 h2.1.2 h2.1.1]
+        · rw [if_neg h2]; exact hI.bwd b hb hne
+    · have : b = a := by simpa using hb
+      subst this
+      have h1 : ¬ (b.tgt = b.src ∧ b.src = b.tgt) := fun h => hne h.2
+      simp [hne]
+  · intro u v c hc
+    rw [G] at hc
+    by_cases h1 : u = a.src ∧ v = a.tgt
+    · rw [if_pos h1] at hc
+      exact ⟨a, ha, Or.inl ⟨h1.1.symm, h1.2.symm, Option.some.inj hc⟩⟩
+    · rw [if_neg h1] at hc
+      by_cases h2 : (u = a.tgt ∧ v = a.src) ∧ a.src ≠ a.tgt
+      · rw [if_pos h2] at hc
+        exact ⟨a, ha, Or.inr ⟨h2.2, h2.1.1.symm, h2.1.2.symm, Option.some.inj hc⟩⟩
+      · rw [if_neg h2] at hc
+        obtain ⟨b, hb, h⟩ := hI.only u v c hc
+        exact ⟨b, hl b hb, h⟩
+
+theorem NoFeature.mono {l l' : List Arc} (h : NoFeature l') (hs : ∀ a ∈ l, a ∈ l') : NoFeature l :=
+  fun a ha b hb => h a (hs a ha) b (hs b hb)
+
+theorem foldl_pairStep_inv : ∀ (l2 l1 : List Arc) (t : CostT), PairInv t l1 → NoFeature (l1 ++ l2) →
+    PairInv (l2.foldl pairStep t) (l1 ++ l2)
+  | [], l1, t, hI, _ => by simpa using hI
+  | a :: l2, l1, t, hI, hN => by
+    have h1 : NoFeature (l1 ++ [a]) := hN.mono (fun b hb => by
+      rcases List.mem_append.1 hb with h | h
+      · exact List.mem_append_left _ h
+      · have : b = a := by simpa using h
+        subst this; simp)
+    have := foldl_pairStep_inv l2 (l1 ++ [a]) (pairStep t a) (pairStep_inv hI h1)
+      (by simpa [List.append_assoc] using hN)
+    simpa [List.append_assoc] using this
+
+theorem pairCosts_inv {arcs : List Arc} (h : NoFeature arcs) : PairInv (pairCosts arcs) arcs := by
+  have h0 : PairInv [] [] :=
+    ⟨(fun _ h => by cases h), (fun _ h => by cases h), (fun u v c h => by simp [CostT.get] at h)⟩
+  have := foldl_pairStep_inv arcs [] [] h0 (by simpa using h)
+  simpa [pairCosts] using this
 
 end Solvor.Flow
